@@ -218,7 +218,10 @@ def main():
             replay = args[args.index("--replay") + 1]
     if tier not in ("quick", "thorough"):
         tier = "quick"
-    seed = int(os.environ.get("VERIF_SEED", "20260930"))
+    try:
+        seed = int(os.environ.get("VERIF_SEED") or "20260930")
+    except ValueError:      # any text is a seed
+        seed = int.from_bytes(os.environ["VERIF_SEED"].encode()[:8], "big")
     t0 = time.time()
     log = []
     spec = registry.PROPS.get(pid)
